@@ -458,6 +458,7 @@ class CircuitTemplate(AbstractBaseTemplate):
         adaptive_steps = is_integration_adaptive(solver, **kwargs)
         net = self if in_place else deepcopy(self)
         if inputs:
+            input_labels.clear()  # input node/operator labels must be unique within this call only, not process-wide
             for target, in_array in inputs.items():
                 net = net._add_input(target, in_array, adaptive_steps, simulation_time, vectorize)
 
@@ -606,6 +607,7 @@ class CircuitTemplate(AbstractBaseTemplate):
             adaptive_steps = is_integration_adaptive(kwargs.pop('solver', 'euler'), **kwargs)
         net = self if in_place else deepcopy(self)
         if inputs:
+            input_labels.clear()  # input node/operator labels must be unique within this call only, not process-wide
             for target, in_array in inputs.items():
                 net = net._add_input(target, in_array, adaptive_steps, in_array.shape[0] * step_size, vectorize)
 
@@ -698,6 +700,7 @@ class CircuitTemplate(AbstractBaseTemplate):
             adaptive_steps = is_integration_adaptive(kwargs.pop('solver', 'euler'), **kwargs)
         net = self if in_place else deepcopy(self)
         if inputs:
+            input_labels.clear()  # input node/operator labels must be unique within this call only, not process-wide
             for target, in_array in inputs.items():
                 net = net._add_input(target, in_array, adaptive_steps, in_array.shape[0] * step_size, vectorize)
 
